@@ -561,7 +561,10 @@ def build_plan(idx: int, seed: int, tier: str, rsp: bool, newline_pos: T.Optiona
                     continue
                 cls = rng.choice([c for c in CLASSES if c not in ('space', 'tab', 'newline', 'long', 'empty', 'backslash')])
                 t = make_string(rng, cls, b.tier, False)
-                toks.append(''.join(ch for ch in t if ch not in ' \t\n\\') or 'q')
+                t = ''.join(ch for ch in t if ch not in ' \t\n\\') or 'q'
+                if not _ok_everywhere(t):      # stripping blanks can re-create an exact `&&` (a command separator)
+                    t = 'q' + t.replace('@', '')
+                toks.append(t)
             return toks
 
         def splittings(toks: T.List[str], k: int) -> T.List[T.List[str]]:
